@@ -7,7 +7,12 @@ cd "$HERE"
 PYTHONPATH="$HERE/tools" python3 -c "import vlib; vlib.gen_coqproject()"
 cd "$HERE/coq"
 # build the dependency cone of every claimed property (files of properties still under construction are not built)
-TARGETS=$(python3 -c "import json; print(' '.join('theories/Props/%s.vo' % c['property_id'] for c in json.load(open('$HERE/MANIFEST.json'))['checks']))")
+TARGETS=$(python3 -c "
+import json, glob, os
+ids = [c['property_id'] for c in json.load(open('$HERE/MANIFEST.json'))['checks']]
+# Props/Cxx.v plus its companion files (Cxxb.v, Cxxc.v, Cxxh.v ...)
+fs = sorted(f for i in ids for f in glob.glob('theories/Props/%s*.v' % i))
+print(' '.join(f[:-2] + '.vo' for f in fs))")
 timeout 3400 make -j6 $TARGETS > "$HERE/.setup_make.log" 2>&1 || { tail -60 "$HERE/.setup_make.log"; echo "setup: make failed"; exit 1; }
 cd "$HERE"
 mkdir -p evidence replays
